@@ -7,20 +7,47 @@
      late   roots registered *while the DSL executes* (by "reg" expressions), in
             the order in which they get registered
      deps   DependsOn() of every root (no self loops)
-     beh    the behaviours of the initial expressions of the root's first set
+     beh    the behaviours of the initial expressions of the root's first set (may be empty)
+     beh2   the behaviours of the initial expressions of the root's second set (may be empty)
+     rb     the behaviour of the root expression itself
    Every root walks two expression sets (like goa's own roots walk "declared"
    then "generated" expressions): set 1 starts with the expressions of `beh`,
-   set 2 starts empty.  Behaviours of an expression when its DSL executes:
+   set 2 with those of `beh2`.  A behaviour says which of the interfaces Source /
+   Preparer / Validator / Finalizer the expression implements (Ifc: the engine calls
+   nothing else) and WHERE and HOW it reports an error.  Expressions implementing
+   all four:
      plain       nothing
-     append      appends a (plain) expression to set 2 of its root, a set that is
+     append      DSL appends a (plain) expression to set 2 of its root, a set that is
                  walked later
-     appendsame  appends a (plain) expression to set 1, the set being executed
-     reg         registers the next not yet registered late root (eval.Register)
-     err         eval.ReportError
-     verr        nothing in the DSL; its Validate() returns an error
+     appendsame  DSL appends a (plain) expression to set 1, the set being executed
+     reg         DSL registers the next not yet registered late root (eval.Register)
+     err         DSL calls eval.ReportError
+     perr        Prepare() calls eval.ReportError (the only way a Preparer can fail)
+     verr        Validate() returns a *ValidationErrors holding one error
+     vrec        Validate() records an error (eval.Context.Record) and returns nil
+     vboth       Validate() records an error AND returns a *ValidationErrors
+     vempty      Validate() returns a non-nil *ValidationErrors holding no error: no error
+     vnil        Validate() returns a nil *ValidationErrors (non-nil error interface): no error
+     ferr        Finalize() calls eval.ReportError
+   Other interface sets (prefix = the interfaces: s Source, p Preparer, v Validator,
+   f Finalizer; suffix = the error behaviour above):
+     nil  (a nil entry of the set: nothing is called)   s  s-err   pvf  pvf-perr  pvf-vrec
+     pvf-verr  pvf-ferr   v  v-verr  v-vrec  v-vboth  v-vempty   p-perr   f-ferr
+   Root expressions (rb) are Preparer+Validator+Finalizer with plain / perr / vrec / verr /
+   vboth / vempty / vnil / ferr, or "bare" (none of the three interfaces).
    The observable is the sequence of user callbacks <<phase, root, set, index>>
    (set 0, index 0 = the root expression itself, which is prepared, validated
-   and finalized before its sets) and what RunDSL returns.
+   and finalized before its sets) and what RunDSL returns.  An error is identified by
+   <<tag, root, set, index>>, tag = dsl | prepare | vrec (recorded while validating) |
+   validate (returned by Validate) | finalize.
+
+   Errors (statement: "all errors of a phase are returned together, and finalization never
+   runs on a design that failed execution or validation"; quantifier: errors in any phase):
+   every callback of the phase still runs after an error of that phase; RunDSL returns after
+   the DSL phase when it reported errors; errors of the finalize phase are returned when the
+   phase is over.  The statement is silent on what follows an error recorded while
+   *preparing*: modelled as the code does - the validate phase still runs, the errors of both
+   phases are returned together, finalize does not run.
 
    Named deviations (what the code does / did instead of the design):
      eval.late_roots_ignored            RunDSL takes the list of roots once; roots
@@ -29,7 +56,12 @@
      eval.same_set_append_not_executed  runSet iterates over its by-value copy of
                                         the set: expressions appended to the set
                                         being executed never have their DSL run
-                                        (they are prepared, validated, finalized) *)
+                                        (they are prepared, validated, finalized)
+     eval.finalize_errors_dropped       RunDSL returns nil after the finalize phase whatever
+                                        was recorded: errors reported from Finalize() are
+                                        never returned
+     eval.typed_nil_validation_panics   a Validate() returning a nil *ValidationErrors makes
+                                        validateSet dereference it: RunDSL panics *)
 EXTENDS Integers, Sequences, FiniteSets, TLC
 
 CONSTANTS Roots,        \* universe of root names
@@ -39,7 +71,30 @@ CONSTANTS Roots,        \* universe of root names
           Canonical,    \* TRUE: Roots() picks one fixed admissible order (vector generation)
           Deviations    \* named departures of the code from the design
 
-Behaviours == {"plain", "append", "appendsame", "reg", "err", "verr"}
+Behaviours == {"plain", "append", "appendsame", "reg", "err", "verr"}      \* the spaces full / one / late
+FullToks == Behaviours \cup {"perr", "vrec", "vboth", "vempty", "vnil", "ferr"}
+SrcToks  == {"s", "s-err"}
+PVFToks  == {"pvf", "pvf-perr", "pvf-vrec", "pvf-verr", "pvf-ferr"}
+ValToks  == {"v", "v-verr", "v-vrec", "v-vboth", "v-vempty"}
+AllToks  == FullToks \cup SrcToks \cup PVFToks \cup ValToks \cup {"p-perr", "f-ferr", "nil"}
+RootToks == {"plain", "perr", "vrec", "verr", "vboth", "vempty", "vnil", "ferr", "bare"}
+\* which phases call the expression (the interfaces it implements)
+Ifc(b) == CASE b \in FullToks -> {"dsl", "prepare", "validate", "finalize"}
+            [] b \in SrcToks  -> {"dsl"}
+            [] b \in PVFToks  -> {"prepare", "validate", "finalize"}
+            [] b \in ValToks  -> {"validate"}
+            [] b = "p-perr"   -> {"prepare"}
+            [] b = "f-ferr"   -> {"finalize"}
+            [] OTHER          -> {}
+RIfc(b) == IF b = "bare" THEN {} ELSE {"prepare", "validate", "finalize"}
+\* the error tags a callback of phase p produces for an expression of behaviour b
+ErrTags(p, b) ==
+  CASE p = "dsl"      -> IF b \in {"err", "s-err"} THEN {"dsl"} ELSE {}
+    [] p = "prepare"  -> IF b \in {"perr", "pvf-perr", "p-perr"} THEN {"prepare"} ELSE {}
+    [] p = "validate" -> (IF b \in {"vrec", "vboth", "pvf-vrec", "v-vrec", "v-vboth"} THEN {"vrec"} ELSE {})
+                         \cup (IF b \in {"verr", "vboth", "pvf-verr", "v-verr", "v-vboth"} THEN {"validate"} ELSE {})
+    [] p = "finalize" -> IF b \in {"ferr", "pvf-ferr", "f-ferr"} THEN {"finalize"} ELSE {}
+TagPhase(t) == IF t = "vrec" THEN "validate" ELSE t
 PhaseSeq == <<"dsl", "prepare", "validate", "finalize">>
 LaterPhases == {"prepare", "validate", "finalize"}
 
@@ -51,7 +106,7 @@ VARIABLES cfg,        \* the case (see above)
           ri, si, ei, \* cursor: index in order, set (0 = the root itself), expression
           log,        \* sequence of callbacks <<phase, root, set, index>>
           errs,       \* Context.Errors as a set of callbacks that reported an error
-          result      \* "none" | "ok" | "error" | "cycle"
+          result      \* "none" | "ok" | "error" | "cycle" | "panic"
 vars == <<cfg, registered, sets, order, phase, ri, si, ei, log, errs, result>>
 
 Range(s) == {s[i] : i \in 1..Len(s)}
@@ -117,16 +172,50 @@ BehFns(P, rg, lt) ==
       \* "reg" expressions exist exactly when there is something to register
       /\ (Len(lt) > 0) = (SumOver(Range(rg), f, "reg") > 0)
       /\ (Len(lt) < 2 => SumOver(Range(lt), f, "reg") = 0)}
-MkCfg(rg, lt, bh, E) == [reg |-> rg, late |-> lt, beh |-> bh, deps |-> DepFn(E)]
+NoSet2 == [r \in Roots |-> <<>>]
+PlainRoots == [r \in Roots |-> "plain"]
+MkCfg(rg, lt, bh, E) == [reg |-> rg, late |-> lt, beh |-> bh, beh2 |-> NoSet2, rb |-> PlainRoots, deps |-> DepFn(E)]
 \* The space is  { MkCfg(rg, lt, bh, E) : rg \in P.regs, lt \in LateSeqs(P, rg), bh \in BehFns(P, rg, lt),
 \*                   E \in SUBSET AllowedEdges(rg, lt, bh) };  Init enumerates it with nested quantifiers (a
 \* constant definition holding the whole set is evaluated by TLC once per worker, tens of seconds).
 
+\* The spaces "errs" / "errsq": WHERE and HOW an error is reported.  One or two registered roots (no late
+\* roots); every root has three sites: the root itself (0), its first set (1), its second set (2).  At most
+\* two sites hold a non-plain behaviour, of which - when there are two - at least one is an error of the
+\* interaction set; with two roots the two sites are of different roots (same-root pairs are those of the
+\* one-root cases).  The other sets are all empty or all one plain expression.
+ErrToks   == AllToks \ {"plain", "append", "appendsame", "reg"}
+InterToks == IF Space = "errs" THEN {"err", "perr", "verr", "vrec", "ferr"} ELSE {"perr", "verr", "ferr"}
+ErrRegs   == LET p == CHOOSE q \in AllRegSeqs : Len(q) = Cardinality(Roots) IN {SubSeq(p, 1, k) : k \in 1..Len(p)}
+SiteRoot(rg, i) == rg[((i - 1) \div 3) + 1]
+SiteKind(i)     == (i - 1) % 3
+SiteToks(i)     == IF SiteKind(i) = 0 THEN RootToks \ {"plain"} ELSE ErrToks
+\* an assignment: a function from at most two sites to behaviours
+Assigns(rg) ==
+  LET n == 3 * Len(rg)
+      pairs == {x \in (1..n) \X (1..n) : x[1] < x[2] /\ (Len(rg) > 1 => SiteRoot(rg, x[1]) # SiteRoot(rg, x[2]))}
+      two(i, j) == UNION {{(i :> t) @@ (j :> u) : u \in {y \in SiteToks(j) : t \in InterToks \/ y \in InterToks}} : t \in SiteToks(i)}
+  IN {<<>>}
+     \cup UNION {{(i :> t) : t \in SiteToks(i)} : i \in 1..n}
+     \cup UNION {two(x[1], x[2]) : x \in pairs}
+ErrDeps(rg) == IF Len(rg) = 2 /\ Space = "errs" THEN {{}, {<<rg[1], rg[2]>>}} ELSE {{}}
+ErrCfg(rg, A, fill, E) ==
+  LET site(r, k) == CHOOSE i \in 1..(3 * Len(rg)) : SiteRoot(rg, i) = r /\ SiteKind(i) = k
+      setOf(r, k) == IF r \notin Range(rg) THEN (IF k = 1 THEN <<"plain">> ELSE <<>>)
+                     ELSE IF site(r, k) \in DOMAIN A THEN <<A[site(r, k)]>> ELSE fill
+  IN [reg |-> rg, late |-> <<>>, deps |-> DepFn(E),
+      beh  |-> [r \in Roots |-> setOf(r, 1)],
+      beh2 |-> [r \in Roots |-> setOf(r, 2)],
+      rb   |-> [r \in Roots |-> IF r \in Range(rg) /\ site(r, 0) \in DOMAIN A THEN A[site(r, 0)] ELSE "plain"]]
+
 ---------------------------------------------------------------------------
-Init == /\ \E rg \in SpaceParams.regs : \E lt \in LateSeqs(SpaceParams, rg) : \E bh \in BehFns(SpaceParams, rg, lt) :
-             \E E \in SUBSET AllowedEdges(rg, lt, bh) : cfg = MkCfg(rg, lt, bh, E)
+Init == /\ IF Space \in {"errs", "errsq"}
+           THEN \E rg \in ErrRegs : \E A \in Assigns(rg) : \E fill \in {<<>>, <<"plain">>} : \E E \in ErrDeps(rg) :
+                   cfg = ErrCfg(rg, A, fill, E)
+           ELSE \E rg \in SpaceParams.regs : \E lt \in LateSeqs(SpaceParams, rg) : \E bh \in BehFns(SpaceParams, rg, lt) :
+                   \E E \in SUBSET AllowedEdges(rg, lt, bh) : cfg = MkCfg(rg, lt, bh, E)
         /\ registered = cfg.reg
-        /\ sets = [r \in Roots |-> <<cfg.beh[r], <<>> >>]
+        /\ sets = [r \in Roots |-> <<cfg.beh[r], cfg.beh2[r]>>]
         /\ order = <<>> /\ phase = "order" /\ ri = 1 /\ si = 1 /\ ei = 1
         /\ log = <<>> /\ errs = {} /\ result = "none"
 
@@ -148,18 +237,22 @@ Limit == IF si = 1 /\ "eval.same_set_append_not_executed" \in Deviations
 NextLate == LET un == {i \in 1..Len(cfg.late) : cfg.late[i] \notin Range(registered)}
             IN IF un = {} THEN <<>> ELSE <<cfg.late[CHOOSE i \in un : \A j \in un : i <= j]>>
 
-\* eval.Execute of one expression's DSL
+\* eval.Execute of one expression's DSL (runSet skips nil entries and expressions that are not a Source)
 ExecExpr ==
-  /\ phase = "dsl" /\ ri <= Len(order) /\ ei <= Limit
+  /\ phase = "dsl" /\ ri <= Len(order) /\ ei <= Limit /\ "dsl" \in Ifc(CurSet[ei])
   /\ LET b == CurSet[ei] IN
      /\ log' = Append(log, <<"dsl", CurRoot, si, ei>>)
      /\ sets' = CASE b = "append"     -> [sets EXCEPT ![CurRoot][2] = Append(@, "plain")]
                   [] b = "appendsame" -> [sets EXCEPT ![CurRoot][1] = Append(@, "plain")]
                   [] OTHER -> sets
      /\ registered' = IF b = "reg" THEN registered \o NextLate ELSE registered
-     /\ errs' = IF b = "err" THEN errs \cup {<<"dsl", CurRoot, si, ei>>} ELSE errs
+     /\ errs' = errs \cup {<<t, CurRoot, si, ei>> : t \in ErrTags("dsl", b)}
   /\ ei' = ei + 1
   /\ UNCHANGED <<cfg, order, phase, ri, si, result>>
+SkipExec ==
+  /\ phase = "dsl" /\ ri <= Len(order) /\ ei <= Limit /\ "dsl" \notin Ifc(CurSet[ei])
+  /\ ei' = ei + 1
+  /\ UNCHANGED <<cfg, registered, sets, order, phase, ri, si, log, errs, result>>
 \* runSet returns; WalkSets hands over the next set
 NextSetDSL ==
   /\ phase = "dsl" /\ ri <= Len(order) /\ ei > Limit /\ si = 1
@@ -185,15 +278,24 @@ EndDSL ==
           /\ ri' = 1 /\ si' = 0 /\ ei' = 0 /\ UNCHANGED order
   /\ UNCHANGED <<cfg, registered, sets, log, errs>>
 
-\* prepare / validate / finalize: the root itself (set 0), then every expression of set 1, set 2
+\* prepare / validate / finalize: the root itself (set 0), then every expression of set 1, set 2;
+\* only the expressions implementing the interface of the phase are called
 StepLen == IF si = 0 THEN 0 ELSE Len(CurSet)
+CurBeh == IF si = 0 THEN cfg.rb[CurRoot] ELSE CurSet[ei]
+Called(p) == IF si = 0 THEN p \in RIfc(CurBeh) ELSE p \in Ifc(CurBeh)
+\* validateSet dereferences the nil *ValidationErrors
+Panics(p) == p = "validate" /\ CurBeh = "vnil" /\ "eval.typed_nil_validation_panics" \in Deviations
 StepExpr(p) ==
-  /\ phase = p /\ ri <= Len(order) /\ ei <= StepLen
+  /\ phase = p /\ ri <= Len(order) /\ ei <= StepLen /\ Called(p)
   /\ log' = Append(log, <<p, CurRoot, si, ei>>)
-  /\ errs' = IF p = "validate" /\ si > 0 /\ CurSet[ei] = "verr"
-             THEN errs \cup {<<p, CurRoot, si, ei>>} ELSE errs
+  /\ errs' = errs \cup {<<t, CurRoot, si, ei>> : t \in ErrTags(p, CurBeh)}
+  /\ IF Panics(p) THEN result' = "panic" /\ phase' = "done" /\ ei' = ei
+                  ELSE ei' = ei + 1 /\ UNCHANGED <<phase, result>>
+  /\ UNCHANGED <<cfg, registered, sets, order, ri, si>>
+SkipStep(p) ==
+  /\ phase = p /\ ri <= Len(order) /\ ei <= StepLen /\ ~Called(p)
   /\ ei' = ei + 1
-  /\ UNCHANGED <<cfg, registered, sets, order, phase, ri, si, result>>
+  /\ UNCHANGED <<cfg, registered, sets, order, phase, ri, si, log, errs, result>>
 NextSet(p) ==
   /\ phase = p /\ ri <= Len(order) /\ ei > StepLen /\ si < 2
   /\ si' = si + 1 /\ ei' = 1
@@ -202,17 +304,22 @@ NextRoot(p) ==
   /\ phase = p /\ ri <= Len(order) /\ ei > StepLen /\ si = 2
   /\ ri' = ri + 1 /\ si' = 0 /\ ei' = 0
   /\ UNCHANGED <<cfg, registered, sets, order, phase, log, errs, result>>
+\* the phase is over.  Prepare: RunDSL goes on to validate whatever was recorded (see the head comment);
+\* validate: any error recorded so far (while preparing or validating, or returned by a Validate) is returned
+\* and finalize does not run; finalize: the errors recorded while finalizing are returned
 EndPhase(p, q) ==
   /\ phase = p /\ ri > Len(order)
   /\ IF p = "validate" /\ errs # {}
      THEN result' = "error" /\ phase' = "done"
-     ELSE IF q = "done" THEN result' = "ok" /\ phase' = "done"
+     ELSE IF q = "done"
+          THEN /\ result' = IF errs # {} /\ "eval.finalize_errors_dropped" \notin Deviations THEN "error" ELSE "ok"
+               /\ phase' = "done"
           ELSE result' = result /\ phase' = q
   /\ ri' = 1 /\ si' = 0 /\ ei' = 0
   /\ UNCHANGED <<cfg, registered, sets, order, log, errs>>
 
-Internal == \/ NextSetDSL \/ NextRootDSL
-            \/ \E p \in LaterPhases : NextSet(p) \/ NextRoot(p)
+Internal == \/ NextSetDSL \/ NextRootDSL \/ SkipExec
+            \/ \E p \in LaterPhases : NextSet(p) \/ NextRoot(p) \/ SkipStep(p)
             \/ EndPhase("prepare", "validate") \/ EndPhase("validate", "finalize") \/ EndPhase("finalize", "done")
 Callback == ExecExpr \/ \E p \in LaterPhases : StepExpr(p)
 Next == ComputeOrder \/ EndDSL \/ Callback \/ Internal
@@ -220,9 +327,10 @@ Spec == Init /\ [][Next]_vars /\ WF_vars(Next)
 
 ---------------------------------------------------------------------------
 \* what RunDSL returns: the admissible (kind, errors) pairs of a finished run
-Outcomes == IF result = "cycle"
-            THEN {[kind |-> "cycle", errs |-> {}]} \cup (IF errs # {} THEN {[kind |-> "error", errs |-> errs]} ELSE {})
-            ELSE {[kind |-> result, errs |-> errs]}
+Outcomes == CASE result = "cycle" ->
+                   {[kind |-> "cycle", errs |-> {}]} \cup (IF errs # {} THEN {[kind |-> "error", errs |-> errs]} ELSE {})
+              [] result = "error" -> {[kind |-> "error", errs |-> errs]}
+              [] OTHER -> {[kind |-> result, errs |-> {}]}       \* ok (nil) / panic: no error value
 
 ---------------------------------------------------------------------------
 \* the property
@@ -243,32 +351,44 @@ CycleReported ==
   /\ Cyclic(cfg.deps, Range(cfg.reg)) => (phase = "done" => result = "cycle" /\ log = <<>>)
   /\ (phase = "done" /\ Cyclic(cfg.deps, Range(registered))) => result = "cycle"
   /\ result = "cycle" => Cyclic(cfg.deps, Range(registered))
+\* finalize never runs after an error, wherever and however it was reported (the only errors there can be
+\* once a Finalize() has been called are those of the finalize phase itself), and those are not lost
 NoFinalizeAfterError ==
-  /\ \A i \in 1..Len(log) : log[i][1] = "finalize" => errs = {}
-  /\ result \in {"error", "cycle"} => \A i \in 1..Len(log) : log[i][1] # "finalize"
+  /\ (\E i \in 1..Len(log) : log[i][1] = "finalize") => \A e \in errs : e[1] = "finalize"
+  /\ result = "cycle" => \A i \in 1..Len(log) : log[i][1] # "finalize"
+  /\ result = "ok" => errs = {}
 \* every expression of every registered root: which callbacks the design owes it
 Slots == {t \in Roots \X {1, 2} \X (1..(2 * MaxExprs)) : t[1] \in Range(registered) /\ t[3] <= Len(sets[t[1]][t[2]])}
+BehOf(t) == sets[t[1]][t[2]][t[3]]
 Times(x) == Cardinality({i \in 1..Len(log) : log[i] = x})
-Complete(p) == /\ \A t \in Slots : Times(<<p, t[1], t[2], t[3]>>) = 1
-               /\ p # "dsl" => \A r \in Range(registered) : Times(<<p, r, 0, 0>>) = 1
+Complete(p) == /\ \A t \in Slots : Times(<<p, t[1], t[2], t[3]>>) = IF p \in Ifc(BehOf(t)) THEN 1 ELSE 0
+               /\ \A r \in Range(registered) : Times(<<p, r, 0, 0>>) = IF p \in RIfc(cfg.rb[r]) THEN 1 ELSE 0
 \* on success everything registered or appended by then went through all four phases exactly once
 AllPhasesForAll == result = "ok" => \A p \in Range(PhaseSeq) : Complete(p)
-\* a failed run completed the phases before the failing one
+\* a failed run completed the phases before the failing one, and the failing one
 CompleteBeforeError == result = "error" =>
    /\ Complete("dsl")
-   /\ (\E e \in errs : e[1] = "validate") => Complete("prepare") /\ Complete("validate")
-With(b) == {t \in Slots : sets[t[1]][t[2]][t[3]] = b}
-\* all errors of the failing phase are returned together
+   /\ (\E e \in errs : e[1] # "dsl") => Complete("prepare") /\ Complete("validate")
+   /\ (\E e \in errs : e[1] = "finalize") => Complete("finalize")
+\* the errors the expressions of the case report in phase p (from the configuration alone)
+RootOwed(p) == UNION {{<<g, r, 0, 0>> : g \in ErrTags(p, cfg.rb[r])} : r \in Range(registered)}
+PhaseErrs(p) == (IF p = "dsl" THEN {} ELSE RootOwed(p)) \cup UNION {{<<g, t[1], t[2], t[3]>> : g \in ErrTags(p, BehOf(t))} : t \in Slots}
+\* all errors of the failing phase are returned together (prepare and validate: see the head comment)
 ErrorsTogether == result = "error" =>
-   \/ errs # {} /\ errs = {<<"dsl", t[1], t[2], t[3]>> : t \in With("err")}
-   \/ errs # {} /\ With("err") = {} /\ errs = {<<"validate", t[1], t[2], t[3]>> : t \in With("verr")}
-OkMeansNoErrors == result = "ok" => errs = {} /\ With("err") = {} /\ With("verr") = {}
+   /\ errs # {}
+   /\ IF PhaseErrs("dsl") # {} THEN errs = PhaseErrs("dsl")
+      ELSE IF PhaseErrs("prepare") \cup PhaseErrs("validate") # {} THEN errs = PhaseErrs("prepare") \cup PhaseErrs("validate")
+      ELSE errs = PhaseErrs("finalize")
+OkMeansNoErrors == result = "ok" => errs = {} /\ \A p \in Range(PhaseSeq) : PhaseErrs(p) = {}
 \* a root registered while the DSL executes is executed, prepared, validated and finalized
 LateRootsRun == result = "ok" => \A r \in Range(registered) \ Range(cfg.reg) :
-                   \A p \in LaterPhases : \E i \in 1..Len(log) : log[i] = <<p, r, 0, 0>>
+                   /\ \A p \in LaterPhases \cap RIfc(cfg.rb[r]) : \E i \in 1..Len(log) : log[i] = <<p, r, 0, 0>>
+                   /\ \A k \in 1..Len(cfg.beh[r]) : "dsl" \in Ifc(cfg.beh[r][k]) => \E i \in 1..Len(log) : log[i] = <<"dsl", r, 1, k>>
 TypeOK == /\ phase \in {"order", "dsl", "prepare", "validate", "finalize", "done"}
-          /\ result \in {"none", "ok", "error", "cycle"}
+          /\ result \in {"none", "ok", "error", "cycle", "panic"}
           /\ (phase = "done") = (result # "none")
           /\ Range(order) \subseteq Range(registered)
+\* RunDSL returns (nil, the errors, the cycle error): no callback makes the engine itself crash
+RunReturns == result # "panic"
 Terminates == <>(phase = "done")
 ===========================================================================
